@@ -5,7 +5,7 @@ import itertools
 import numpy as np
 
 LEVEL = "proof"
-N_CASES = {"quick": 1500, "thorough": 60000}
+N_CASES = {"quick": 4000, "thorough": 150000}
 RULE = ("run-length data as random (value,count) lists incl. zero counts and counts at 126..130, 254..257, 510, 600 "
         "with count dtypes int8/uint8/int16/uint16/int64; index sets sorted / unsorted / repeated, list or array; "
         "Encoding API: 4 encodings x (identity, transpose, flip, flat, reshape) views x 13 reads against the dense "
@@ -61,7 +61,7 @@ def cases(ctx):
                 yield {"kind": "rle_dense", "runs": [[v, 1] for v in vals], "dtype": "uint8"}
     while True:
         k = rng.choice(["rle_dense", "brle_dense", "rle_ops", "rle_ops", "brle_ops", "brle_ops", "binvox", "grid",
-                        "enc", "enc", "enc"])
+                        "enc", "enc", "enc", "enc", "enc", "enc"])
         ctx.count("kind:" + k)
         dt = rng.choice(list(DTYPES))
         if k == "rle_dense":
@@ -98,14 +98,14 @@ def cases(ctx):
             yield {"kind": k, "shape": shape, "bits": [int(rng.random() < 0.5) for _ in range(n)], "scale": scale,
                    "perm": list(perm), "sign": sign, "t": [rng.randint(-5, 5) for _ in range(3)]}
         else:
-            shape = rng.choice([[5], [2, 3], [2, 2, 3], [1, 4], [3, 1, 2]])
+            shape = rng.choice([[5], [2, 3], [2, 2, 3], [1, 4], [3, 1, 2], [2, 3, 4], [3, 3, 3], [2, 2, 2]])
             n = int(np.prod(shape))
-            p = rng.choice([0.0, 0.3, 0.7, 1.0])
+            p = rng.choice([0.0, 0.3, 0.5, 0.7, 1.0])
             enc = rng.choice(["dense", "sparse", "rle", "brle"])
             nd = len(shape)
             views = []
-            for _ in range(rng.choice([0, 1, 1, 2])):
-                v = rng.choice(["transpose", "flip", "flat", "reshape"])
+            for _ in range(rng.choice([0, 1, 1, 2, 2, 3])):
+                v = rng.choice(["transpose", "transpose", "flip", "flat", "reshape"])
                 views.append([v, rng.randrange(10 ** 6)])
             yield {"kind": "enc", "shape": shape, "bits": [int(rng.random() < p) for _ in range(n)], "enc": enc,
                    "views": views, "seed": rng.randrange(10 ** 6), "nd": nd}
@@ -410,16 +410,22 @@ def oracle(c, o):
             return {"kind": k, "fail": "is_filled"}
     elif k == "enc":
         if "build_err" in o:
-            return {"kind": k, "enc": c["enc"], "view": "+".join(sorted(set(o["chain"]))) or "id", "read": "build",
-                    "fail": "exc:" + o["build_err"], "nd": len(c["shape"]), "content": "any"}
+            sg = {"kind": k, "enc": c["enc"], "view": "+".join(sorted(set(o["chain"]))) or "id", "read": "build",
+                  "fail": "exc:" + o["build_err"], "nd": len(c["shape"]), "content": "any"}
+            for a in set(o["chain"]):
+                sg["has_" + a] = True
+            return sg
         view = "+".join(sorted(set(o["chain"]))) or "id"
         sigs = []
         for read in READS:
             v = o["reads"].get(read)
             if v and v != "ok":
-                sigs.append({"kind": k, "enc": c["enc"], "view": view, "read": read, "fail": v,
-                             "nd": len(c["shape"]),
-                             "content": "empty" if o["empty"] else ("full" if o["full"] else "mixed")})
+                sg = {"kind": k, "enc": c["enc"], "view": view, "read": read, "fail": v,
+                      "nd": len(c["shape"]),
+                      "content": "empty" if o["empty"] else ("full" if o["full"] else "mixed")}
+                for a in set(o["chain"]):
+                    sg["has_" + a] = True
+                sigs.append(sg)
         return sigs or None
     return None
 
